@@ -1428,6 +1428,13 @@ class ModelBuilder:
                     if scenario_idx is not None and attr_data and isinstance(attr_data, tuple):
                         attr_key, attr_value = attr_data
                         obj[(attr_key, scenario_idx)] = attr_value
+                        # Nested scenarios inherit the value from their parent scenario unless
+                        # they carry an override of their own (whatever the order in the file)
+                        explicit = self.__dict__.setdefault("_explicit_scenario_attrs", set())
+                        explicit.add((id(obj), attr_key, scenario_idx))
+                        for child_idx in self._descendant_scenario_indices(obj.project, scenario_id):
+                            if (id(obj), attr_key, child_idx) not in explicit:
+                                obj[(attr_key, child_idx)] = attr_value
                 elif key == "journalentry":
                     # Create a journal entry for this task
                     self._create_journal_entry(obj, value)  # type: ignore[arg-type]
@@ -1593,6 +1600,22 @@ class ModelBuilder:
                 else:
                     with contextlib.suppress(ValueError, KeyError, AttributeError):
                         obj[key] = value
+
+    def _descendant_scenario_indices(self, project: Project, scenario_id: str) -> list[int]:
+        """Indices of all scenarios nested (directly or indirectly) below the given one."""
+        scenarios = list(project.scenarios)
+        root = next((sc for sc in scenarios if sc.id == scenario_id), None)
+        if root is None:
+            return []
+        result: list[int] = []
+        for i, sc in enumerate(scenarios):
+            parent = sc.parent
+            while parent is not None:
+                if parent is root:
+                    result.append(i)
+                    break
+                parent = parent.parent
+        return result
 
     def _get_scenario_index(self, project: Project, scenario_id: str) -> Optional[int]:
         """Get the index of a scenario by its ID."""
